@@ -11,7 +11,7 @@ SPEC = {
              'callbacks (in registration order) and in the failure log and keep a finished part, callback rounds '
              'must match state changes, undisturbed default work orders must keep the target down for exactly '
              'their duration; at every clock advance a finished part that a processor kept through its down time must not '
-             'still sit in the (restored) processor while a downstream neighbour accepts it on a deep copy; a case is one model; non-trivial = a failure with a part in process and a restore'),
+             'still sit in the (restored) processor while a downstream neighbour accepts it on a deep copy; a case is one model; non-trivial = a failure with a part in process and a restore; also: processors created while the clock runs, planned stops refused by a callback, failures due at the current instant while down for maintenance, shutdown / restored callbacks that fail once'),
     'floors': {'quick': {'accounting_checks': 50000, 'transitions': 2000, 'failures_with_part_in_process': 50,
                          'failures_with_finished_part_held': 10, 'failures_while_already_down': 20,
                          'work_orders_judged': 100},
